@@ -261,6 +261,33 @@ TARGETS: Dict[str, Tuple[Callable, Callable]] = {
                             lambda a, im, nt, ct: MB.apply_static_mods(a, im, nt, ct, mode="append", return_type="annotation")),
     "apply_variable_mods": _t(lambda a: (a, {"K": [["Acetyl"], [Mod(1.5, 1)]], "E": [["Methyl"]]}, ["Formyl"]),
                               lambda a, im, nt: MB.apply_variable_mods(a, im, 2, nterm_mods=nt, mode="skip", return_type="annotation")),
+    # the same builders given ready-made Mod objects everywhere: input_convert.fix_list_of_mods / fix_dict_of_mods return such lists
+    # as they are, so every copy the callee omits shows up as shared state between the caller's list and the returned peptide
+    **{f"apply_static_mods/objs/{mode}": _t(
+        lambda a: (a, {"K": [Mod("Acetyl", 1)], "[ST]": [Mod(1.5, 1)], "E": [Mod("Methyl", 2)]}, [Mod("Methyl", 1)], {"K": [Mod("Amidated", 1)], "C": [Mod(2.5, 1)]}),
+        (lambda mode: lambda a, im, nt, ct: MB.apply_static_mods(a, im, nt, ct, mode=mode, return_type="annotation"))(mode))
+       for mode in ("append", "overwrite", "skip")},
+    "apply_static_mods/objs/termdict": _t(
+        lambda a: (a, None, {"K": [Mod("Methyl", 1)]}, [Mod("Amidated", 1)]),
+        lambda a, im, nt, ct: MB.apply_static_mods(a, im, nt, ct, mode="append", return_type="annotation")),
+    "apply_variable_mods/objs/skip": _t(
+        lambda a: (a, {"K": [[Mod("Acetyl", 1)]], "E": [[Mod(1.5, 1)]]}, [[Mod("Formyl", 1)]], {"C": [[Mod("Amidated", 1)]]}),
+        lambda a, im, nt, ct: MB.apply_variable_mods(a, im, 1, nterm_mods=nt, cterm_mods=ct, mode="skip", return_type="annotation")),
+    "apply_variable_mods/objs/append": _t(
+        lambda a: (a, {"E": [[Mod(1.5, 1)]]}, [[Mod("Formyl", 1)]]),
+        lambda a, im, nt: MB.apply_variable_mods(a, im, 1, nterm_mods=nt, mode="append", return_type="annotation")),
+    "add_mods/objs": _t(lambda a: (a.serialize(), {"nterm": [Mod("Acetyl", 1)], "cterm": [Mod("Amidated", 1)], 0: [Mod("Phospho", 1)], "labile": [Mod("Hex", 1)],
+                                                  "unknown": [Mod("Oxidation", 1)], "static": [Mod("[1.5]@K", 1)], "isotope": [Mod("13C", 1)],
+                                                  "intervals": [Interval(0, 1, False, [Mod("Methyl", 1)])], "charge_adducts": [Mod("+Na+", 1)], "charge": 3}),
+                        lambda a, d: SF.add_mods(a, d)),
+    "add_mods/objs/annotation": _t(lambda a: (a, {"nterm": [Mod("Acetyl", 1)], "cterm": [Mod("Amidated", 1)], 1: [Mod("Phospho", 1)], "labile": [Mod("Hex", 1)],
+                                                 "unknown": [Mod("Oxidation", 1)], "intervals": [Interval(0, 1, False, [Mod("Methyl", 1)])]}),
+                                   lambda a, d: SF.add_mods(a, d, append=False)),
+    "create_annotation/objs": _t(lambda a: ({"nterm_mods": [Mod("Acetyl", 1)], "cterm_mods": [Mod("Amidated", 1)], "labile_mods": [Mod("Hex", 1)],
+                                             "unknown_mods": [Mod("Oxidation", 1)], "static_mods": [Mod("[1.5]@K", 1)], "isotope_mods": [Mod("13C", 1)],
+                                             "charge_adducts": [Mod("+Na+", 1)], "internal_mods": {0: [Mod("Phospho", 1)]},
+                                             "intervals": [Interval(0, 1, True, [Mod("Methyl", 1)])]},),
+                                 lambda kw: create_annotation("PEK", **kw)),
     # annotation methods
     "a.copy": _t(lambda a: (a,), lambda a: a.copy()),
     "a.dict": _t(lambda a: (a,), lambda a: a.dict()),
@@ -304,7 +331,7 @@ TARGETS: Dict[str, Tuple[Callable, Callable]] = {
 }
 
 
-NOANN = {"mod_mass", "chem_mass", "glycan_mass", "chem_mz", "create_annotation", "isotopic_distribution", "isotopic_distribution_fractional",
+NOANN = {"create_annotation/objs", "mod_mass", "chem_mass", "glycan_mass", "chem_mz", "create_annotation", "isotopic_distribution", "isotopic_distribution_fractional",
          "merge_isotopic_distributions", "write_chem_formula", "apply_isotope_mods_to_composition", "estimate_comp", "mod_comp", "glycan_comp",
          "write_glycan_formula", "parse_static_mods", "match_spectra"}
 
